@@ -17,7 +17,7 @@ RULE = ("split_sync: all 65536 int16 words (exhaustive) in natural, shuffled, co
         "step amplitudes and analog thresholding. Non-trivial: a train with >= 3 events on >= 2 lines; distinct = distinct "
         "(layout | file kind, line subset, slice, dtype) signature")
 ASSUMPTIONS = ["one digital sync word per sample (as in every fixture); 0/1 trains are given as signed or floating arrays"]
-REQUIRED = {"words_checked": 65536, "read_sync_checked": 10, "fronts_checked": 100, "fronts_2d_checked": 100, "analog_on_threshold": 20, "strided_sync_checked": 20, "nidq_partial_checked": 8, "analog_lines_checked": 4, "sync_routes_checked": 30, "lf_band_sync_files": 3, "headers_rewritten_in_place": 2, "sync_files_with_stale_header": 5}
+REQUIRED = {"words_checked": 65536, "read_sync_checked": 10, "fronts_checked": 100, "fronts_2d_checked": 100, "analog_on_threshold": 20, "strided_sync_checked": 20, "nidq_partial_checked": 8, "analog_lines_checked": 4, "sync_routes_checked": 30, "lf_band_sync_files": 3, "headers_rewritten_in_place": 2, "sync_files_with_stale_header": 5, "analog_long_windows": 20}
 CASE_TIMEOUT = 120.0
 EXHAUSTIVE = "split_sync over all 65536 words x 16 bits"
 
@@ -293,6 +293,31 @@ def run_case(case):
                                   f"nidq read_sync({sl}) after {'no' if sl is order_[0] else 'an'} earlier read of the other half (baseline step half-way): analog line differs at "
                                   f"{int((syd[:, 16] != xd[sl]).sum()) if syd.shape[0] == sl.stop - sl.start else '?'} samples", counter="analog_lines_checked")
                     srd.close()
+            # a window of several SECONDS whose opening second is spent high (a gate that is already up when the window starts, round 20): the floor of a
+            # line is a property of the whole window read. Slow auxiliary rate so that seconds stay cheap; >= 25 % low samples in every window judged
+            fsg = float(rng.choice([1000.0, 2000.0, 1250.5]))
+            nsg = int(3.4 * fsg)
+            recg = G.make_nidq(rng, mn=mn, ma=ma, xa=1, dw=1, acq=None, mn_gain=1.0, aimax=aimax, ns=nsg, fs=fsg)
+            up = int(rng.uniform(1.05, 1.4) * fsg)
+            xg = np.ones(nsg, np.int8)
+            tail, _, _ = train(rng, nsg - up, int(rng.integers(6, 30)), min_gap=5)
+            xg[up:] = tail
+            xg[up:up + int(0.9 * fsg)] = 0                      # the gate closes for at least 0.9 s, then pulses
+            lowg = float(rng.uniform(-1, 1))
+            vg = lowg + np.where(xg == 1, float(rng.uniform(2.0, 3.0)), 0.0) + rng.uniform(-0.02, 0.02, nsg)
+            recg.raw[:, mn + ma] = np.clip(np.round(vg / i2v), -32768, 32767).astype(np.int16)
+            bg = G.write(recg, scratch() / "gate")
+            with spikeglx.Reader(bg) as srg:
+                for sl in (slice(0, nsg), slice(int(0.1 * fsg), nsg - 3)):
+                    syg = srg.read_sync(sl)
+                    n_ = sl.stop - sl.start
+                    res.check(syg.shape == (n_, 17) and np.array_equal(syg[:, 16], xg[sl]), "read_sync:nidq-analog:high-opening-second",
+                              f"nidq analog line at {fsg} Hz, high during the first {up / fsg:.2f} s of a {n_ / fsg:.1f} s window ({np.mean(xg[sl] == 0):.0%} low samples): "
+                              f"{int((syg[:, 16] != xg[sl]).sum()) if syg.shape == (n_, 17) else '?'} samples differ from the written train "
+                              f"({int(syg[:, 16].sum()) if syg.shape == (n_, 17) else '?'} read high, {int(xg[sl].sum())} written high)", counter="analog_long_windows")
+                    ig, sg_ = U.fronts(syg[:, 16]) if syg.shape == (n_, 17) else (np.array([]), np.array([]))
+                    expi = np.flatnonzero(np.diff(xg[sl].astype(int)) != 0) + 1
+                    res.check(np.array_equal(ig, expi), "read_sync:nidq-analog:high-opening-second:fronts", f"fronts of that line: {len(ig)} events recovered, {len(expi)} written")
             # a weak analog line (swing 0.5..0.95 V above its floor) read with a threshold chosen for it: high samples lie far from the threshold
             # (at least 0.2 V on either side) and read 1; with the default threshold (1.2 V) the same line reads 0 throughout
             recw = G.make_nidq(rng, mn=mn, ma=ma, xa=1, dw=1, acq=None, mn_gain=1.0, aimax=aimax, ns=ns, fs=25000.0)
